@@ -45,6 +45,7 @@ from OpenSSL import crypto
 
 from .buffer import Buffer, BufferReadError
 
+MAX_HANDSHAKE_MESSAGE_SIZE = 524288  # in bytes, same budget as MAX_PENDING_CRYPTO
 TLS_VERSION_1_2 = 0x0303
 TLS_VERSION_1_3 = 0x0304
 TLS_VERSION_1_3_DRAFT_28 = 0x7F1C
@@ -1367,6 +1368,10 @@ class Context:
             message_length = 4 + int.from_bytes(
                 self._receive_buffer[1:4], byteorder="big"
             )
+
+            # refuse to reassemble messages larger than we are willing to buffer
+            if message_length > MAX_HANDSHAKE_MESSAGE_SIZE:
+                raise AlertDecodeError("TLS message too large")
 
             # check message is complete
             if len(self._receive_buffer) < message_length:
